@@ -500,6 +500,7 @@ def r111_subscriptions(ctx):
 def r112_notify_dispatch(ctx):
     prog = ctx.prog
     ctx.rule('R11.2', 'notify dispatch of simulation statistics: data event -> base notify with the same content; WARMUP -> initialize(); END_REPLICATION -> end_observations(clock)')
+    native = {}
     for c in sim_stat_classes(prog):
         ci = prog.cls(c)
         fn = prog.method(c, 'notify', inherited=False)
@@ -557,13 +558,31 @@ def r112_notify_dispatch(ctx):
                         args = [unparse(x) for x in inner.args]
                         if not persistent:
                             ok = cls == 'Event' and len(args) == 2 and args[1] == f'{ev}.content' and args[0].startswith('StatEvents.')
+                            if ok:
+                                native[c] = args[0]
                         else:
+                            if len(args) == 3:
+                                native[c] = args[1]
                             ok = cls == 'TimedEvent' and len(args) == 3 and args[2] == f'{ev}.content' and args[1] == 'StatEvents.TIMESTAMP_DATA_EVENT' \
                                 and args[0] in ('self.simulator.simulator_time', 'self._simulator.simulator_time')
             ctx.ob('R11.2', f'{c}.notify:{case}', ok, sample=f'{c}.notify({case} event) -> {desc}')
             if not ok:
                 ctx.finding('R11.2', f'{c}.notify:{case}', ci, fn, f'{c}.notify on a {case} event performs {desc}; expected: {expected}', where=f'{c}.notify')
         ctx.exhaustive[f'R11.2 {c}.notify event classes'] = True
+        # the event type accepted without listen_to() is the statistic's own data event: the one notify() forwards observations as
+        init = prog.method(c, '__init__', inherited=False)
+        sets = [a for a in walk_shallow(init) if isinstance(a, (ast.Assign, ast.AnnAssign)) and getattr(a, 'value', None) is not None
+                and any(is_self_attr(t, '_event_types') for t in (a.targets if isinstance(a, ast.Assign) else [a.target]))]
+        if sets and c in native:
+            v = sets[-1].value
+            got = [unparse(x) for x in v.elts] if isinstance(v, ast.Set) else None
+            ok = got == [native[c]]
+            ctx.ob('R11.2', f'{c}.__init__:accepted-type', ok, sample=f'{c} accepts {got} without listen_to; forwards observations as {native[c]}')
+            if not ok:
+                ctx.finding('R11.2', f'{c}.__init__:accepted-type', ci, sets[-1],
+                            f'{c} accepts events of type {got} before any listen_to() call, but its data events are {native[c]} (the type notify() forwards them as): '
+                            f'observations sent to it by a plain subscription are silently dropped, and the statistic reports nothing at the replication end',
+                            where=f'{c}.__init__')
 
 
 def r113_model_registration(ctx):
